@@ -38,7 +38,7 @@ from qiskit_addon_cutting import (
     reconstruct_expectation_values, OptimizationParameters, DeviceConstraints,
 )
 from qiskit_addon_cutting.cutting_decomposition import partition_circuit_qubits, cut_gates
-from qiskit_addon_cutting.instructions import CutWire
+from qiskit_addon_cutting.instructions import CutWire, Move
 from qiskit_addon_cutting.qpd import QPDBasis, TwoQubitQPDGate, SingleQubitQPDGate, decompose_qpd_instructions
 from qiskit_addon_cutting.qpd.instructions import BaseQPDGate
 from qiskit_addon_cutting.utils.observable_grouping import ObservableCollection
@@ -95,6 +95,7 @@ class Walk:
         self.parents = {}  # id -> set(parent ids)
         self.arrays = []
         self.roots = []
+        self.hints = {}    # id -> role of a list ("coeffs", "maps", "map-slot", ...)
 
     def _add(self, obj, kind, parent):
         i = id(obj)
@@ -116,6 +117,8 @@ class Walk:
                 self.visit(x, parent, hint)
             return
         if isinstance(obj, np.ndarray):
+            if hint:
+                self.hints.setdefault(id(obj), hint)
             if self._add(obj, "array", parent):
                 self.arrays.append(obj)
             return
@@ -132,7 +135,7 @@ class Walk:
                 return
             self.visit(obj._maps, id(obj), "maps")
             self.visit(obj._coeffs, id(obj), "coeffs")
-            self.visit(getattr(obj, "_probabilities", None), id(obj))
+            self.visit(getattr(obj, "_probabilities", None), id(obj), "probabilities")
             return
         if isinstance(obj, Instruction):
             if not is_mutable_op(obj):
@@ -153,10 +156,12 @@ class Walk:
                 self.visit(a, id(obj))
             return
         if isinstance(obj, list):
+            if hint:
+                self.hints.setdefault(id(obj), hint)
             if not self._add(obj, "list", parent):
                 return
             for x in obj:
-                self.visit(x, id(obj), "map-op" if hint in ("maps", "maps-list") else None)
+                self.visit(x, id(obj), "map-slot" if hint == "maps" else None)
             return
         if isinstance(obj, dict):
             if not self._add(obj, "list", parent):
@@ -182,6 +187,13 @@ def walk(*roots):
     return w
 
 
+ROLE = {}   # id(object) -> role of a shared list / array (for the report only)
+
+
+def root_names(roots):
+    return [[k, ROLE.get(id(o)) or getattr(o, "name", type(o).__name__)] for k, o in roots][:12]
+
+
 def alias_roots(win, wout):
     """[(kind, obj)] of the shared objects that are result roots or are referenced by a non-shared result object;
     plus arrays of the result that share memory with a different array of the arguments (kind by owner)."""
@@ -190,7 +202,9 @@ def alias_roots(win, wout):
     for i in shared:
         ps = wout.parents.get(i, set())
         if i in wout.roots or any(p not in shared for p in ps):
-            roots.append(wout.nodes[i])
+            k, o = wout.nodes[i]
+            ROLE[id(o)] = wout.hints.get(i) or win.hints.get(i)
+            roots.append((k, o))
     for a in wout.arrays:
         if id(a) in shared:
             continue
@@ -305,7 +319,14 @@ def destroy(out):
     for kind, o in items:
         if kind == "basis":
             try:
-                o.coeffs = [float(c) * 3.0 + 1.0 for c in o.coeffs]
+                if isinstance(o._coeffs, list):          # basis.coeffs[k] = v  (in place)
+                    for k in range(len(o._coeffs)):
+                        o._coeffs[k] = -7.0
+                    n += 1
+            except Exception:  # noqa: BLE001
+                pass
+            try:
+                o.coeffs = [float(c) * 3.0 + 1.0 for c in o.coeffs]   # basis.coeffs = [...]  (setter)
                 n += 1
             except Exception:  # noqa: BLE001
                 pass
@@ -552,14 +573,68 @@ class Refusal(Exception):
     pass
 
 
+class Crash(Exception):
+    pass
+
+
+def guarded(f, *a):
+    """run an implementation call: ValueError -> Refusal, anything else -> Crash."""
+    try:
+        return f(*a)
+    except ValueError as e:
+        raise Refusal(str(e)[:200])
+    except Exception as e:  # noqa: BLE001
+        raise Crash(f"{type(e).__name__}: {str(e)[:160]}")
+
+
+PROBE_GATES = [("cx", []), ("cy", []), ("cz", []), ("ch", []), ("ecr", []), ("rzz", [0.375]), ("rxx", [0.375]), ("crx", [0.5]),
+               ("cp", [0.5]), ("cs", []), ("csx", []), ("swap", []), ("iswap", []), ("dcx", []), ("rzx", [0.25])]
+
+
+def probe():
+    """Outcome of calls on brand-new inputs: a basis from every gate family, the Move basis, and one small
+    cut -> partition -> generate pipeline.  Compared with the value computed at the very start of the process
+    (before any destructive edit) to see whether edits of results leak into later, independent calls."""
+    import qiskit.circuit.library as lib
+    out = []
+    for name, params in PROBE_GATES:
+        try:
+            cls = {"cx": lib.CXGate, "cy": lib.CYGate, "cz": lib.CZGate, "ch": lib.CHGate, "ecr": lib.ECRGate,
+                   "rzz": lib.RZZGate, "rxx": lib.RXXGate, "crx": lib.CRXGate, "cp": lib.CPhaseGate, "cs": lib.CSGate,
+                   "csx": lib.CSXGate, "swap": lib.SwapGate, "iswap": lib.iSwapGate, "dcx": lib.DCXGate, "rzx": lib.RZXGate}[name]
+            out.append([name, snap(QPDBasis.from_instruction(cls(*params)))])
+        except Exception as e:  # noqa: BLE001
+            out.append([name, "error " + type(e).__name__ + ": " + str(e)[:80]])
+    try:
+        out.append(["move", snap(QPDBasis.from_instruction(Move()))])
+        qc = QuantumCircuit(2)
+        qc.h(0)
+        qc.cx(0, 1)
+        qc.cz(0, 1)
+        pp = partition_problem(qc, "AB", PauliList(["ZZ"]))
+        ex, co = generate_cutting_experiments(pp.subcircuits, pp.subobservables, np.inf)
+        out.append(["pipeline", snap([pp.subcircuits, pp.bases, ex, co])])
+    except Exception as e:  # noqa: BLE001
+        out.append(["pipeline", "error " + type(e).__name__ + ": " + str(e)[:80]])
+    return out
+
+
+PROBE_REF = None     # set at the start of generate / rerun, before any destructive edit, inherited by the forked workers
+
+
+def probe_diff():
+    if PROBE_REF is None:
+        return None
+    now = probe()
+    bad = [a[0] for a, b in zip(now, PROBE_REF) if a != b]
+    return bad
+
+
 def examine(inputs, call, outs_of, inplace, fresh_inputs=None):
     """Run the protocol; `call(inputs)` executes the public function; `outs_of(result)` lists the result objects."""
     s0 = snap(inputs)
     win = walk(inputs)
-    try:
-        out1 = call(inputs)
-    except ValueError as e:
-        raise Refusal(str(e)[:200])
+    out1 = guarded(call, inputs)
     changed = snap(inputs) != s0
     changed_other = snap(inputs[1:]) != s0[1][1:]      # any argument besides the first (the circuit) modified
     w1 = walk(outs_of(out1))
@@ -567,9 +642,13 @@ def examine(inputs, call, outs_of, inplace, fresh_inputs=None):
     rec = dict(changed=changed, changed_other=changed_other, io=kind_counts(io), io_roots=io)
     if inplace:
         rec.update(oo=[0] * len(KINDS), oo_roots=[], edits=0, edit_hits_inputs=False, edit_hits_earlier=False,
-                   later_call_changed=False, later_call_error=None, result_is_arg=(outs_of(out1)[0] is inputs[0]))
+                   later_call_changed=False, later_call_error=None, fresh_later_changed=[],
+                   result_is_arg=(outs_of(out1)[0] is inputs[0]))
         return rec, out1
-    out2 = call(inputs)
+    try:
+        out2 = call(inputs)
+    except Exception as e:  # noqa: BLE001
+        raise Crash(f"second call on the same arguments: {type(e).__name__}: {str(e)[:160]}")
     oo = alias_roots(w1, walk(outs_of(out2)))
     s_in = snap(inputs)
     s_out1 = snap(outs_of(out1))
@@ -584,8 +663,12 @@ def examine(inputs, call, outs_of, inplace, fresh_inputs=None):
     except Exception as e:  # noqa: BLE001
         err = f"{type(e).__name__}: {str(e)[:120]}"
         later = True
+    try:
+        fresh = probe_diff() or []
+    except Exception as e:  # noqa: BLE001
+        fresh = ["probe raised " + type(e).__name__]
     rec.update(oo=kind_counts(oo), oo_roots=oo, edits=n, edit_hits_inputs=hit_in, edit_hits_earlier=hit_earlier,
-               later_call_changed=later, later_call_error=err)
+               later_call_changed=later, later_call_error=err, fresh_later_changed=fresh)
     return rec, out1
 
 
@@ -602,8 +685,9 @@ def input_bases(circs):
 def classify(entry, rec, circs):
     """the known class explaining ALL deviations of this record, or None (no deviation / unexplained deviation)."""
     roots = rec["io_roots"] + rec["oo_roots"]
-    deviates = (bool(roots) or rec["changed"] or rec["edit_hits_inputs"] or rec["edit_hits_earlier"] or rec["later_call_changed"])
-    if not deviates or rec["changed"]:
+    deviates = (bool(roots) or rec["changed"] or rec["edit_hits_inputs"] or rec["edit_hits_earlier"] or rec["later_call_changed"]
+                or rec.get("fresh_later_changed"))
+    if not deviates or rec["changed"] or rec.get("fresh_later_changed"):
         return None
     if not roots:
         return None
@@ -763,52 +847,121 @@ def run_entry(entry, inplace, d, w=None):
 def record_json(entry, inplace, d, lit, rec, cls, tag):
     return dict(entry=entry, inplace=inplace, known_class=tag, detected_class=cls, desc=d, call=lit,
                 changed=rec["changed"], changed_other=rec["changed_other"], io=rec["io"], oo=rec["oo"],
-                io_roots=[[k, getattr(o, "name", type(o).__name__)] for k, o in rec["io_roots"]][:12],
-                oo_roots=[[k, getattr(o, "name", type(o).__name__)] for k, o in rec["oo_roots"]][:12],
+                io_roots=root_names(rec["io_roots"]), oo_roots=root_names(rec["oo_roots"]),
                 edits=rec["edits"], edit_hits_inputs=rec["edit_hits_inputs"], edit_hits_earlier=rec["edit_hits_earlier"],
                 later_call_changed=rec["later_call_changed"], later_call_error=rec["later_call_error"],
+                fresh_later_changed=rec.get("fresh_later_changed") or [],
                 result_is_arg=rec.get("result_is_arg"), kinds=KINDS)
 
 
+class Collector:
+    """stands in for the CaseWriter inside a worker: records contract checks"""
+
+    def __init__(self):
+        self.contracts = []
+
+    def contract(self, name, ok):
+        self.contracts.append([name, bool(ok)])
+
+
+CRASH_OBS = (True, [9] * len(KINDS), [9] * len(KINDS))     # never produced by the model: a crashed unit is a mismatch
+
+
+def run_unit(unit):
+    """One unit in a forked worker (the parent is never touched by the destructive edits).  Never raises."""
+    entry, inplace, d, known = unit
+    col = Collector()
+    name = entry + ("_inplace" if inplace else "")
+    try:
+        try:
+            hb, lit, rec, circs = run_entry(entry, inplace, d, col)
+        except Refusal as e:
+            return dict(status="refused", entry=entry, detail=str(e), contracts=col.contracts)
+        except Crash as e:
+            raise
+        except ValueError as e:
+            return dict(status="refused", entry=entry, detail="setup: " + str(e)[:160], contracts=col.contracts)
+        cls = classify(entry, rec, circs)
+        tag = cls if (cls in known) else None
+        effects = bool(rec["edit_hits_inputs"] or rec["edit_hits_earlier"] or rec["later_call_changed"]
+                       or rec.get("fresh_later_changed"))
+        # untagged cases: the property-satisfying model also predicts that edits of a result have no effect at all
+        changed_obs = bool(rec["changed"]) or (effects and not tag and not inplace)
+        js = record_json(entry, inplace, d, lit, rec, cls, tag)
+        js["crashed"] = None
+        no_alias = not rec["io_roots"] and not rec["oo_roots"]
+        if not inplace:
+            col.contract("no alias => destructive edits of a result have no effect", (not no_alias) or not effects)
+        else:
+            col.contract("an in-place call returns its circuit argument", bool(rec.get("result_is_arg")))
+        return dict(status="ok", entry=entry, name=name, group=name + (f"__known_{tag}" if tag else ""),
+                    checker="chk_cur" if tag else "chk_rep",
+                    coq="(" + ", ".join([hb.heap().s, "(" + lit + ")", coq((changed_obs, rec["io"], rec["oo"]))]) + ")",
+                    js=js, cls=cls or "none", nobj=len(hb.objs), contracts=col.contracts)
+    except BaseException as e:  # noqa: BLE001  the implementation (or the set-up that uses it) crashed
+        msg = f"{type(e).__name__}: {str(e)[:200]}"
+        js = dict(entry=entry, inplace=inplace, known_class=None, detected_class=None, desc=d, call=None, crashed=msg,
+                  changed=False, changed_other=False, io=[0] * len(KINDS), oo=[0] * len(KINDS), io_roots=[], oo_roots=[], edits=0,
+                  edit_hits_inputs=False, edit_hits_earlier=False, later_call_changed=False, later_call_error=None,
+                  fresh_later_changed=[], result_is_arg=None, kinds=KINDS)
+        return dict(status="crashed", entry=entry, name=name, group=name + "__crashed", checker="chk_rep",
+                    coq="(" + ", ".join(["[]", "(CReconstruct [] 0 [])", coq(CRASH_OBS)]) + ")",
+                    js=js, cls="crashed", nobj=0, contracts=col.contracts)
+
+
+def run_units(units, nproc=None):
+    """Run the units in forked one-shot workers (fresh copy of the pristine parent for every unit)."""
+    import multiprocessing as mp
+
+    nproc = nproc or int(os.environ.get("C16_JOBS", "8"))
+    if os.environ.get("C16_NOFORK") == "1":
+        return [run_unit(u) for u in units]
+    ctx = mp.get_context("fork")
+    out = []
+    with ctx.Pool(processes=nproc, maxtasksperchild=1) as pool:
+        pending = [pool.apply_async(run_unit, (u,)) for u in units]
+        for u, r in zip(units, pending):
+            try:
+                out.append(r.get(timeout=600))
+            except Exception as e:  # noqa: BLE001  (worker died or hung)
+                out.append(dict(status="lost", entry=u[0], detail=f"{type(e).__name__}: {e}", contracts=[]))
+    return out
+
+
 class Gen:
-    def __init__(self, w, known):
-        self.w = w
+    """collects the units of one run"""
+
+    def __init__(self, known):
         self.known = known
+        self.units = []
 
     def case(self, entry, d, inplace=False):
-        w = self.w
-        try:
-            hb, lit, rec, circs = run_entry(entry, inplace, d, w)
-        except Refusal:
-            w.count("refused", entry)
-            return
-        except Exception as e:  # noqa: BLE001  (set-up of the case failed, e.g. find_cuts on an unsupported circuit)
-            w.count("setup_failed", f"{entry}:{type(e).__name__}")
-            return
-        cls = classify(entry, rec, circs)
-        tag = cls if (cls in self.known) else None
-        name = entry + ("_inplace" if inplace else "")
-        group = name + (f"__known_{tag}" if tag else "")
-        checker = "chk_cur" if tag else "chk_rep"
-        coq_case = (hb.heap(), Raw("(" + lit + ")"), (bool(rec["changed"]), rec["io"], rec["oo"]))
-        w.add(group, checker, coq_case, record_json(entry, inplace, d, lit, rec, cls, tag),
-              nontrivial=(len(hb.objs) > 2))
-        w.count("entry", name)
-        w.count("class", cls or "none")
-        w.count("heap_objects", f"{len(hb.objs) // 20 * 20}+")
-        if not inplace:
-            no_alias = not rec["io_roots"] and not rec["oo_roots"]
-            w.contract("no alias => destructive edits of a result have no effect",
-                       (not no_alias) or not (rec["edit_hits_inputs"] or rec["edit_hits_earlier"] or rec["later_call_changed"]))
-        else:
-            w.contract("an in-place call returns its circuit argument", bool(rec.get("result_is_arg")))
+        self.units.append((entry, inplace, d, sorted(self.known)))
+
+
+def safe_ids(cd):
+    """instruction indices of the cuttable two-qubit gates of a description (no implementation call involved)"""
+    return [k for k, o in enumerate(cd["ops"]) if len(o["q"]) == 2 and o["g"] in CUTTABLE and o["g"] != "unitary"]
+
+
+def qpd_positions(cd):
+    """for every pre-placed QPD gate of a description: (index, number of maps of its basis)"""
+    nm = {"cx": 6, "cz": 6, "rzz": 6, "ryy": 6, "crx": 6, "swap": 58, "rzx": 58}
+    out = []
+    for k, o in enumerate(cd["ops"]):
+        if o["g"] == "qpd_2q":
+            src = o["src"] if "src" in o else cd["ops"][o["share"]]["src"]
+            out.append((k, nm[src]))
+    return out
 
 
 def generate(rng, tier, outdir):
     w = CaseWriter(outdir, IMPORTS, case_types={"chk_rep": CASE_TY, "chk_cur": CASE_TY})
     w.SHARD = 40          # the generate cases are heavy for vm_compute: keep the shards small so that they run in parallel
     known = known_classes()
-    g = Gen(w, known)
+    g = Gen(known)
+    global PROBE_REF
+    PROBE_REF = probe()   # pristine reference for "later calls on new inputs", taken before any destructive edit
     quick = tier == "quick"
     N = dict(pcq=100, cut_gates=100, partition=120, cut_wires=100, expand=40, find_cuts=50, generate=50, dqi=70, reconstruct=10,
              inplace=90) if quick else \
@@ -827,7 +980,7 @@ def generate(rng, tier, outdir):
     for it in range(N["cut_gates"]):
         nq = int(rng.integers(2, 5))
         cd = rand_desc(rng, nq, int(rng.integers(1, 7)), p_pre=0.3 if it % 3 else 0.0, barriers=False)
-        ids = two_q_plain_ids(build_circuit(cd))
+        ids = safe_ids(cd)
         k = int(rng.integers(0, min(3, len(ids)) + 1))
         g.case("cut_gates", dict(circuit=cd, gate_ids=[int(x) for x in rng.permutation(ids)[:k]] if ids else []))
 
@@ -857,11 +1010,11 @@ def generate(rng, tier, outdir):
     for it in range(N["dqi"]):
         nq = int(rng.integers(2, 4))
         cd = rand_desc(rng, nq, int(rng.integers(1, 5)), p_pre=0.5, p_py=0.15, barriers=False)
-        qc = build_circuit(cd)
-        qids = [k for k, i in enumerate(qc.data) if isinstance(i.operation, BaseQPDGate)]
+        qp = qpd_positions(cd)
+        qids = [k for k, _ in qp]
         if not qids and it % 4:
             continue
-        mids = [int(rng.integers(0, len(qc.data[k].operation.basis.maps))) for k in qids]
+        mids = [int(rng.integers(0, n)) for _, n in qp]
         g.case("dqi", dict(circuit=cd, ids=qids, map_ids=mids))
 
     for it in range(N["generate"]):
@@ -896,15 +1049,30 @@ def generate(rng, tier, outdir):
             g.case("pcq", dict(circuit=cd, labels=tl(rand_labels(rng, nq))), inplace=True)
         elif which == 1:
             cd = rand_desc(rng, nq, int(rng.integers(1, 6)), p_pre=0.25, barriers=False)
-            ids = two_q_plain_ids(build_circuit(cd))
+            ids = safe_ids(cd)
             gids = [int(x) for x in rng.permutation(ids)[:int(rng.integers(0, 3))]] if ids else []
             g.case("cut_gates", dict(circuit=cd, gate_ids=gids), inplace=True)
         else:
             cd = rand_desc(rng, min(nq, 3), int(rng.integers(1, 5)), p_pre=0.5, barriers=False)
-            qc = build_circuit(cd)
-            qids = [k for k, i in enumerate(qc.data) if isinstance(i.operation, BaseQPDGate)]
-            mids = [int(rng.integers(0, len(qc.data[k].operation.basis.maps))) for k in qids]
-            g.case("dqi", dict(circuit=cd, ids=qids, map_ids=mids), inplace=True)
+            qp = qpd_positions(cd)
+            g.case("dqi", dict(circuit=cd, ids=[k for k, _ in qp], map_ids=[int(rng.integers(0, n)) for _, n in qp]), inplace=True)
+
+    # ---- run the units (forked one-shot workers) and collect
+    for u, r in zip(g.units, run_units(g.units)):
+        for name, ok in r.get("contracts", []):
+            w.contract(name, ok)
+        if r["status"] == "refused":
+            w.count("refused", r["entry"])
+            continue
+        if r["status"] == "lost":
+            w.count("worker_lost", r["entry"])
+            w.notes.append(f"worker lost on {u[0]}: {r['detail']}")
+            w.contract("every unit's worker returns", False)
+            continue
+        w.add(r["group"], r["checker"], Raw(r["coq"]), r["js"], nontrivial=(r["nobj"] > 2))
+        w.count("entry", r["name"])
+        w.count("class", r["cls"])
+        w.count("heap_objects", f"{r['nobj'] // 20 * 20}+")
 
     return w.finish(
         rule="random circuits on 2-4 qubits (h/x/s/rx, cx/rzz/swap made natively, rzx/rzz appended as Python gate objects, "
@@ -921,32 +1089,49 @@ def generate(rng, tier, outdir):
 # property-level oracle (independent of the Coq model)
 # ----------------------------------------------------------------------------------------------
 def judge(case):
+    """Decides from the recorded JSON alone; never raises."""
+    try:
+        return _judge(case)
+    except Exception as e:  # noqa: BLE001
+        return dict(violates=None, detail=f"judge could not decide: {type(e).__name__}: {e}")
+
+
+def _judge(case):
     problems = []
+    kinds = case.get("kinds") or KINDS
+    io = case.get("io") or [0] * len(kinds)
+    oo = case.get("oo") or [0] * len(kinds)
+    if case.get("crashed"):
+        return dict(violates=False, detail="the call (or the set-up that uses the implementation) crashed before the protocol "
+                                           "could finish: " + str(case["crashed"]) + " - not decidable as a C16 question")
     if case.get("inplace"):
         # an in-place call is documented to modify its circuit argument and to return it; nothing else may change
         if case.get("changed_other"):
             problems.append("an argument other than the circuit was modified by the in-place call")
         if case.get("result_is_arg") is False:
             problems.append("the in-place call did not return its circuit argument")
-        others = [k for k, n in zip(case["kinds"], case["io"]) if n and k != "circuit"]
+        others = [k for k, n in zip(kinds, io) if n and k != "circuit"]
         if others:
             problems.append(f"in-place result shares {others} with the arguments besides the circuit itself")
-        if case["io"][0] > 1:
+        if io and io[0] > 1:
             problems.append("more than one circuit shared")
     else:
-        if case["changed"]:
+        if case.get("changed"):
             problems.append("an argument was modified by the call")
-        if any(case["io"]):
-            problems.append("result shares mutable objects with the arguments: " + json.dumps(case["io_roots"]))
-        if any(case["oo"]):
-            problems.append("two results share mutable objects: " + json.dumps(case["oo_roots"]))
-        if case["edit_hits_inputs"]:
+        if any(io):
+            problems.append("result shares mutable objects with the arguments: " + json.dumps(case.get("io_roots")))
+        if any(oo):
+            problems.append("two results share mutable objects: " + json.dumps(case.get("oo_roots")))
+        if case.get("edit_hits_inputs"):
             problems.append("destructive edits of a result changed the arguments")
-        if case["edit_hits_earlier"]:
+        if case.get("edit_hits_earlier"):
             problems.append("destructive edits of a result changed an earlier result")
-        if case["later_call_changed"]:
-            problems.append("destructive edits of a result changed the outcome of a later call" +
+        if case.get("later_call_changed"):
+            problems.append("destructive edits of a result changed the outcome of a later call on the same arguments" +
                             (f" ({case['later_call_error']})" if case.get("later_call_error") else ""))
+        if case.get("fresh_later_changed"):
+            problems.append("destructive edits of a result changed the outcome of later calls on NEW inputs: " +
+                            json.dumps(case.get("fresh_later_changed")))
     if problems and case.get("known_class"):
         return dict(violates=False, known=case["known_class"],
                     detail=f"known sharing class {case['known_class']}: " + "; ".join(problems))
@@ -954,18 +1139,20 @@ def judge(case):
 
 
 def rerun(case):
-    """Re-execute the implementation on the stored description (for --replay) and refresh the record."""
-    entry, inplace, d = case["entry"], case.get("inplace", False), case["desc"]
+    """Re-execute the implementation on the stored description (for --replay) and refresh the record.  Never raises."""
+    global PROBE_REF
     try:
-        hb, lit, rec, circs = run_entry(entry, inplace, d, None)
-    except Refusal as e:
-        case["replay_note"] = "call refused now: " + str(e)
-        case.update(changed=False, io=[0] * len(KINDS), oo=[0] * len(KINDS), io_roots=[], oo_roots=[],
-                    edit_hits_inputs=False, edit_hits_earlier=False, later_call_changed=False)
-        return case
-    cls = classify(entry, rec, circs)
-    tag = cls if cls in known_classes() else None
-    case.update(record_json(entry, inplace, d, lit, rec, cls, tag))
+        if PROBE_REF is None:
+            PROBE_REF = probe()
+        r = run_unit((case["entry"], case.get("inplace", False), case["desc"], sorted(known_classes())))
+        if r["status"] in ("ok", "crashed"):
+            case.update(r["js"])
+        else:
+            case["replay_note"] = f"{r['status']}: {r.get('detail')}"
+            case.update(changed=False, io=[0] * len(KINDS), oo=[0] * len(KINDS), io_roots=[], oo_roots=[], crashed=None,
+                        edit_hits_inputs=False, edit_hits_earlier=False, later_call_changed=False, fresh_later_changed=[])
+    except Exception as e:  # noqa: BLE001
+        case["replay_note"] = f"replay failed: {type(e).__name__}: {e}"
     return case
 
 
